@@ -60,7 +60,7 @@ CHECKS = {
     "C09": vsim("TestVerif_C09", ["fsm-agreement", "snapshot-content", "restart", "converge", "no-crash", "log-read"],
         "cases = generated schedules with long logs over 1 KiB segments: snapshots on leaders and followers (also with the snapshot goroutine or a replication goroutine parked at a hook), compaction, followers lagging/partitioned/restarting, installs, followed by a closing phase (release holds, heal, restart every node, 40 s virtual time, probe update, 10 s). Oracles: recording-FSM content == committed update prefix at its applied index after every step (also right after Restore); every snapshot file's content == committed prefix at its index and index <= highest commit index; every restart succeeds; convergence (one leader, own-term commit, every running member caught up); no crash/fault in any node. non-trivial: a compaction happened or a snapshot was installed, and the closing phase ran; distinct by trace hash",
         1500, 15000),
-    "C10": vsim("TestVerif_C10", ["restart", "restart-consistent", "term-monotonic", "vote-durable", "converge", "leader-unique", "leader-complete", "commit-stable", "log-matching", "fsm-agreement", "no-crash"],
+    "C10": vsim("TestVerif_C10", ["restart", "serve", "restart-consistent", "term-monotonic", "vote-durable", "converge", "leader-unique", "leader-complete", "commit-stable", "log-matching", "fsm-agreement", "no-crash"],
         "cases = generated schedules with crash(node, now | at hook point P on its k-th hit) where P ranges over term.persisted, vote.persisted, append.appended/truncated/flushed, commit.advance, snap.fsmdone/premeta/postmeta/retained, install.stored/cleared, snaptaken.precompact, ldr.precompact; the crashing goroutine takes the directory image at that instruction and is parked; restart = New+Serve on a copy of the image. Oracles: restart succeeds; term >= any term reported; granted vote still there; last index >= highest index acknowledged with success / committed as leader (lowered on observed truncation); PrevIndex <= snapshot index <= last index; then closing phase convergence with the C01-C04 oracles on. non-trivial: a node was killed at a hook point and restarted from that image; distinct by trace hash",
         1500, 15000, level="fault_enumeration"),
     "C12": vsim("TestVerif_C12", ["snapshot-label", "info-config"],
